@@ -308,6 +308,7 @@ func main() {
 	cli.Main(&cli.Property{
 		ID: "C07", Level: "fault_enumeration", Scenarios: scenarios(), Parts: []*cli.Part{part},
 		QuickBound: 2, ThoroughBound: 3, QuickUnbounded: true, ThoroughUnbounded: true, Cache: true, ReleasePoints: true, QuickSecs: 45, ThoroughSecs: 600,
+		RaceHB: &cli.RaceHB{QuickBound: 1, ThoroughBound: 2},
 		Rule:        "H: every history up to depth 7 (thorough 8) over Next, Release, Restart(interval 1..3) in which every Next/Release is additionally run with the process stopping before or after its 1st/2nd store call (the object is then abandoned and only Restart is possible) and with its 1st/2nd store call failing (the object stays in use); oracle: returned numbers strictly increase over the life of the store and the gap between consecutive numbers is at most the sum of the intervals of the objects crashed/abandoned without Release in between (0 after clean Releases). S: all interleavings of 2-3 threads x 2 Next calls on one Sequence; distinct = distinct histories / observation logs",
 		Assumptions: []string{"one live Sequence object per key at a time; an abandoned object is never used again", "store calls do not fail other than by the process stopping"},
 		NotReached:  []string{"intervals above 3"},
